@@ -206,3 +206,732 @@ Proof.
     + rewrite (rinv_beyond w1 id RI1) by lia. lia.
     + destruct (refs w1 j); [lia|]. split; assumption.
 Qed.
+
+(* ---------------------------------------------------------------- detach *)
+
+Lemma round_up_aligned sz x :
+  0 < sz -> (if x mod sz =? 0 then x else x + (sz - x mod sz)) mod sz = 0.
+Proof.
+  intros Hs. destruct (Nat.eqb_spec (x mod sz) 0) as [Z|Z]; [assumption|].
+  pose proof (Nat.div_mod x sz ltac:(lia)). pose proof (Nat.mod_upper_bound x sz ltac:(lia)).
+  replace (x + (sz - x mod sz)) with ((x / sz + 1) * sz) by nia. apply mul_mod. assumption.
+Qed.
+
+(* the elements E1 of buffer id move (as raw bytes) into the empty buffer nid, the elements E2
+   have been finalised, buffer id is freed *)
+Lemma hinv_move e w m id b nid nb b' c1 m1 E1 E2 :
+  hinv e w m -> id <> nid -> hget w id = Some b -> hget w nid = Some nb ->
+  buf_els e b = E1 ++ E2 -> buf_els e nb = [] ->
+  mon_step (wctx w) m c1 m1 E2 [] ->
+  buf_wf e b' -> buf_els e b' = E1 ->
+  hinv e (hput (hput w nid (Some b') c1) id None c1) m1.
+Proof.
+  intros [WF MO LV ND DJ] NE HB HN EB EN S WB' EB'.
+  pose proof (hget_lt _ _ _ HB) as LTi. pose proof (hget_lt _ _ _ HN) as LTn.
+  set (w' := hput (hput w nid (Some b') c1) id None c1).
+  assert (LTi' : id < length (wheap (hput w nid (Some b') c1))) by (rewrite hput_len; assumption).
+  assert (G : forall j bj, hget w' j = Some bj ->
+                           (j = nid /\ bj = b') \/ (j <> nid /\ j <> id /\ hget w j = Some bj)).
+  { intros j bj. unfold w'. destruct (Nat.eq_dec j id) as [->|Ni].
+    - rewrite hget_hput_eq by assumption. discriminate.
+    - rewrite hget_hput_ne by assumption. destruct (Nat.eq_dec j nid) as [->|Nn].
+      + rewrite hget_hput_eq by assumption. intros [= <-]. auto.
+      + rewrite hget_hput_ne by assumption. auto. }
+  assert (GN : hget w' nid = Some b').
+  { unfold w'. rewrite hget_hput_ne by auto. rewrite hget_hput_eq by assumption. reflexivity. }
+  assert (GO : forall j, j <> nid -> j <> id -> hget w' j = hget w j).
+  { intros j N1 N2. unfold w'. rewrite hget_hput_ne by assumption. rewrite hget_hput_ne by assumption. reflexivity. }
+  pose proof (ND _ _ HB) as NDB. rewrite EB in NDB. apply NoDup_app_parts in NDB. destruct NDB as (N1 & N2 & D12).
+  split.
+  - intros j bj Hj. destruct (G _ _ Hj) as [(_ & ->)|(_ & _ & X)]; eauto.
+  - apply S.
+  - intros t. rewrite (st_live _ _ _ _ _ _ S). simpl. split.
+    + intros [[L D]|[]]. apply LV in L. destruct L as (j & bj & Hj & Tj).
+      destruct (Nat.eq_dec j id) as [->|Ni].
+      * rewrite HB in Hj. injection Hj as <-. rewrite EB, in_app_iff in Tj.
+        exists nid, b'. rewrite EB'. split; [assumption|tauto].
+      * destruct (Nat.eq_dec j nid) as [->|Nn].
+        -- rewrite HN in Hj. injection Hj as <-. rewrite EN in Tj. contradiction.
+        -- exists j, bj. rewrite GO by assumption. auto.
+    + intros (j & bj & Hj & Tj). destruct (G _ _ Hj) as [(-> & ->)|(Nn & Ni & X)].
+      * rewrite EB' in Tj. left. split.
+        -- apply LV. exists id, b. rewrite EB, in_app_iff. auto.
+        -- apply D12. assumption.
+      * left. split; [apply LV; eauto|]. intros H2.
+        apply (DJ j id bj b t Ni X HB Tj). rewrite EB, in_app_iff. auto.
+  - intros j bj Hj. destruct (G _ _ Hj) as [(_ & ->)|(_ & _ & X)]; [rewrite EB'; assumption|eauto].
+  - intros i j bi bj t N Hi Hj Ti Tj.
+    destruct (G _ _ Hi) as [(-> & ->)|(Nn & Ni & X)]; destruct (G _ _ Hj) as [(-> & ->)|(Nn' & Ni' & Y)].
+    + congruence.
+    + rewrite EB' in Ti. apply (DJ j id bj b t Ni' Y HB Tj). rewrite EB, in_app_iff. auto.
+    + rewrite EB' in Tj. apply (DJ i id bi b t Ni X HB Ti). rewrite EB, in_app_iff. auto.
+    + exact (DJ i j bi bj t N X Y Ti Tj).
+Qed.
+
+Lemma div_le_mono' a b sz : 0 < sz -> a <= b -> a / sz <= b / sz.
+Proof. intros. apply Nat.div_le_mono; lia. Qed.
+
+(* a fresh buffer of [size] bytes that receives the elements E as its first slots *)
+Lemma moved_buf_ok e k size ncp E :
+  env_ok e -> length E * esz e k <= size ->
+  let nb := mkbuf 1 false ncp size 0 (Some k) (mkslots e (Some k) size) in
+  let b' := with_used (with_slots nb (map STok E ++ skipn (length (map STok E)) (bslots nb)))
+                      (length E * esz e k) in
+  buf_wf e b' /\ buf_els e b' = E.
+Proof.
+  intros EO LE nb b'. pose proof (esz_pos e k EO) as Hs.
+  assert (LS : length E <= size / esz e k) by (apply mul_le_div; assumption).
+  split.
+  - unfold buf_wf, b', nb. simpl.
+    pose proof (typed_wf_intro (esz e k) 1 false ncp size (Some k) E
+                  (skipn (length (map STok E)) (repeat SRaw (size / esz e k))) Hs LE) as W.
+    apply W. rewrite skipn_length, repeat_length, map_length. lia.
+  - eapply (buf_els_typed e b' k E); simpl; eauto.
+Qed.
+
+Lemma detach_ok e w m id b len0 :
+  env_ok e -> hinv e w m -> hget w id = Some b -> 1 <= bref b ->
+  exists w' r m',
+    detach e w id len0 = Ok (w', r) /\ hinv e w' m' /\ whnd w' = whnd w /\
+    match r with
+    | None => forall j, refs w' j = refs w j
+    | Some nid =>
+      (nid = id /\ w' = w) \/
+      (nid = length (wheap w) /\ refs w' nid = Some 1
+       /\ refs w' id = (if bref b =? 1 then None else Some (bref b - 1))
+       /\ (forall j, j <> id -> j <> nid -> refs w' j = refs w j)
+       /\ exists nb, hget w' nid = Some nb /\ btr nb = btr b /\ (bref b = 1 -> bused nb <= bused b))
+    end.
+Proof.
+  intros EO HI HB RB. pose proof (hget_lt _ _ _ HB) as LTi.
+  unfold detach. rewrite HB.
+  remember (btr b) as tr eqn:T0. symmetry in T0.
+  set (esize := match tr with Some k => esz e k | None => 1 end).
+  assert (Hs : 0 < esize) by (unfold esize; destruct tr; [apply esz_pos; assumption|lia]).
+  replace (esize =? 0) with false by (symmetry; apply Nat.eqb_neq; lia).
+  remember (match tr with
+            | Some _ => if len0 mod esize =? 0 then len0 else len0 + (esize - len0 mod esize)
+            | None => len0 end) as len eqn:Hlen.
+  assert (LA : len mod esize = 0).
+  { rewrite Hlen. destruct tr; [apply round_up_aligned; assumption|]. unfold esize. apply Nat.mod_1_r. }
+  clear Hlen.
+  dif.
+  { exists w, (Some id), m. split; [reflexivity|]. split; [assumption|]. split; [reflexivity|]. left. auto. }
+  dif.
+  { exists w, None, m. split; [reflexivity|]. split; [assumption|]. split; [reflexivity|]. reflexivity. }
+  destruct (alloc e w len false (bncp b) tr) as [w1 nid] eqn:A.
+  assert (W1 : w1 = fst (alloc e w len false (bncp b) tr)) by (rewrite A; reflexivity).
+  assert (NID : nid = length (wheap w)) by (change nid with (snd (w1, nid)); rewrite <- A; reflexivity).
+  assert (NE : id <> nid) by lia.
+  set (size := alloc_size e len).
+  set (nb := mkbuf 1 false (bncp b) size 0 tr (mkslots e tr size)).
+  assert (HN1 : hget w1 nid = Some nb).
+  { rewrite W1, hget_alloc, NID, Nat.eqb_refl. reflexivity. }
+  assert (HB1 : hget w1 id = Some b).
+  { rewrite W1, hget_alloc. destruct (Nat.eqb_spec id (length (wheap w))); [lia|assumption]. }
+  assert (HI1 : hinv e w1 m) by (rewrite W1; apply hinv_alloc; assumption).
+  assert (C1 : wctx w1 = wctx w) by (rewrite W1; reflexivity).
+  assert (H1 : whnd w1 = whnd w) by (rewrite W1; reflexivity).
+  assert (L1 : length (wheap w1) = S (length (wheap w))).
+  { rewrite W1. unfold alloc. simpl. rewrite app_length. simpl. lia. }
+  assert (O1 : forall j, j <> nid -> refs w1 j = refs w j).
+  { intros j N. rewrite W1, refs_alloc. destruct (Nat.eqb_spec j (length (wheap w))); [lia|reflexivity]. }
+  assert (SZ : len <= size) by (apply alloc_size_ge; assumption).
+  rewrite HN1.
+  destruct (Nat.eqb_spec (bref b - 1) 0) as [R0|R0]; cbn [negb].
+  - (* ---- last reference: move ---- *)
+    assert (R1 : bref b = 1) by lia.
+    destruct tr as [k|].
+    + (* typed *)
+      pose proof (hinv_pre e w1 m id b EO HI1 HB1) as P.
+      destruct (typed_pre e b (wctx w1) m k P T0) as (_ & EL & J & SL & US & LEN & BE & ULE & NDE & INE).
+      unfold esize in *. set (sz := esz e k) in *.
+      assert (A1 : len = len / sz * sz) by (apply aligned_form; assumption).
+      remember (len / sz) as q eqn:Hq. clear Hq.
+      destruct (len <? bused b) eqn:LU.
+      * apply Nat.ltb_lt in LU.
+        assert (UA : bused b - bused b mod sz = length EL * sz) by (rewrite US, mul_mod by assumption; lia).
+        rewrite UA.
+        assert (QL : q < length EL) by (rewrite US in LU; nia).
+        destruct (split3 EL q (length EL)) as (E1' & E2' & E3' & EQ & LE1 & LE2 & LE3); [lia|lia|].
+        assert (E3' = []) by (destruct E3'; [reflexivity|simpl in LE3; lia]). subst E3'.
+        rewrite app_nil_r in EQ.
+        rewrite EQ in NDE. apply NoDup_app_parts in NDE. destruct NDE as (N1 & N2 & D12).
+        destruct (fini_range sz (bsize b) E2' (S (length EL * sz)) q (map STok E1') J (wctx w1) m)
+          as (c1 & m1 & FL & S1 & SC); try assumption.
+        { rewrite map_length. assumption. }
+        { rewrite EQ, app_length in ULE. nia. }
+        { nia. }
+        { apply HI1. }
+        { intros x Hx. apply INE. rewrite EQ, in_app_iff. tauto. }
+        replace ((q + length E2') * sz) with (length EL * sz) in FL by (rewrite EQ, app_length; nia).
+        rewrite SL. replace (map STok EL) with (map STok E1' ++ map STok E2') by (rewrite EQ, map_app; reflexivity).
+        rewrite <- app_assoc.
+        replace (fini_loop (S (length EL * sz)) sz (bsize b) 0 len (length EL * sz))
+          with (fini_loop (S (length EL * sz)) sz (bsize b) 0 (q * sz) (length EL * sz))
+          by (rewrite <- A1; reflexivity).
+        rewrite FL. cbn [bind].
+        rewrite firstn_exact by (rewrite map_length; assumption).
+        destruct (moved_buf_ok e k size (bncp b) E1' EO) as (WB' & EB'); [nia|].
+        cbn zeta in WB', EB'. fold sz in WB', EB'. rewrite LE1, <- A1 in WB', EB'.
+        set (b' := with_used (with_slots nb (map STok E1' ++ skipn (length (map STok E1')) (bslots nb))) len) in *.
+        exists (hput (hput w1 nid (Some b') c1) id None c1), (Some nid), m1.
+        split; [reflexivity|]. split.
+        { eapply (hinv_move e w1 m id b nid nb b' c1 m1 E1' E2'); eauto.
+          - rewrite BE. assumption.
+          - apply fresh_buf_els. }
+        split; [simpl; assumption|]. right.
+        assert (LTn : nid < length (wheap w1)) by lia.
+        assert (LTi1 : id < length (wheap (hput w1 nid (Some b') c1))) by (rewrite hput_len; lia).
+        split; [assumption|]. split.
+        { rewrite refs_hput by assumption. destruct (Nat.eqb_spec nid id); [lia|].
+          rewrite refs_hput by assumption. rewrite Nat.eqb_refl. reflexivity. }
+        split.
+        { rewrite refs_hput, Nat.eqb_refl by assumption. rewrite R1. reflexivity. }
+        split.
+        { intros j Nj Nn. rewrite refs_hput by assumption. destruct (Nat.eqb_spec j id); [contradiction|].
+          rewrite refs_hput by assumption. destruct (Nat.eqb_spec j nid); [contradiction|]. apply O1. assumption. }
+        exists b'. split.
+        { rewrite hget_hput_ne by auto. rewrite hget_hput_eq by assumption. reflexivity. }
+        split; [reflexivity|]. intros _. simpl. lia.
+      * apply Nat.ltb_ge in LU.
+        replace (bused b / sz) with (length EL) by (rewrite US, mul_div by assumption; reflexivity).
+        rewrite SL. rewrite firstn_exact by (rewrite map_length; reflexivity).
+        destruct (moved_buf_ok e k size (bncp b) EL EO) as (WB' & EB'); [rewrite US in LU; lia|].
+        cbn zeta in WB', EB'. fold sz in WB', EB'. rewrite <- US in WB', EB'.
+        set (b' := with_used (with_slots nb (map STok EL ++ skipn (length (map STok EL)) (bslots nb))) (bused b)) in *.
+        exists (hput (hput w1 nid (Some b') (wctx w1)) id None (wctx w1)), (Some nid), m.
+        split; [reflexivity|]. split.
+        { eapply (hinv_move e w1 m id b nid nb b' (wctx w1) m EL []); eauto.
+          - rewrite app_nil_r. assumption.
+          - apply fresh_buf_els.
+          - apply mon_step_refl. apply HI1. }
+        split; [simpl; assumption|]. right.
+        assert (LTn : nid < length (wheap w1)) by lia.
+        assert (LTi1 : id < length (wheap (hput w1 nid (Some b') (wctx w1)))) by (rewrite hput_len; lia).
+        split; [assumption|]. split.
+        { rewrite refs_hput by assumption. destruct (Nat.eqb_spec nid id); [lia|].
+          rewrite refs_hput by assumption. rewrite Nat.eqb_refl. reflexivity. }
+        split.
+        { rewrite refs_hput, Nat.eqb_refl by assumption. rewrite R1. reflexivity. }
+        split.
+        { intros j Nj Nn. rewrite refs_hput by assumption. destruct (Nat.eqb_spec j id); [contradiction|].
+          rewrite refs_hput by assumption. destruct (Nat.eqb_spec j nid); [contradiction|]. apply O1. assumption. }
+        exists b'. split.
+        { rewrite hget_hput_ne by auto. rewrite hget_hput_eq by assumption. reflexivity. }
+        split; [reflexivity|]. intros _. simpl. lia.
+    + (* raw *)
+      set (add' := if len <? bused b then len else bused b).
+      set (b' := with_used nb add').
+      assert (LTn : nid < length (wheap w1)) by lia.
+      assert (EBraw : buf_els e b = []) by (unfold buf_els; rewrite T0; reflexivity).
+      exists (hput (hput w1 nid (Some b') (wctx w1)) id None (wctx w1)), (Some nid), m.
+      split; [reflexivity|]. split.
+      { eapply (hinv_move e w1 m id b nid nb b' (wctx w1) m [] []); eauto.
+        - apply mon_step_refl. apply HI1.
+        - exact I. }
+      split; [simpl; assumption|]. right.
+      assert (LTi1 : id < length (wheap (hput w1 nid (Some b') (wctx w1)))) by (rewrite hput_len; lia).
+      split; [assumption|]. split.
+      { rewrite refs_hput by assumption. destruct (Nat.eqb_spec nid id); [lia|].
+        rewrite refs_hput by assumption. rewrite Nat.eqb_refl. reflexivity. }
+      split.
+      { rewrite refs_hput, Nat.eqb_refl by assumption. rewrite R1. reflexivity. }
+      split.
+      { intros j Nj Nn. rewrite refs_hput by assumption. destruct (Nat.eqb_spec j id); [contradiction|].
+        rewrite refs_hput by assumption. destruct (Nat.eqb_spec j nid); [contradiction|]. apply O1. assumption. }
+      exists b'. split.
+      { rewrite hget_hput_ne by auto. rewrite hget_hput_eq by assumption. reflexivity. }
+      split; [reflexivity|]. intros _. unfold b', add'. simpl. destruct (len <? bused b) eqn:Z; [apply Nat.ltb_lt in Z|]; lia.
+  - (* ---- other references remain: copy construct ---- *)
+    set (r := bref b - 1) in *.
+    set (w2 := hput w1 id (Some (with_ref b r)) (wctx w1)).
+    assert (LTi1 : id < length (wheap w1)) by lia.
+    assert (LTn : nid < length (wheap w1)) by lia.
+    assert (HI2 : hinv e w2 m) by (apply hinv_ref; assumption).
+    assert (HN2 : hget w2 nid = Some nb) by (unfold w2; rewrite hget_hput_ne by auto; assumption).
+    assert (HB2 : hget w2 id = Some (with_ref b r)) by (unfold w2; rewrite hget_hput_eq by assumption; reflexivity).
+    assert (L2 : length (wheap w2) = length (wheap w1)) by (apply hput_len; assumption).
+    set (add := if len <? bused b then len else bused b).
+    pose proof (hinv_pre e w2 m nid nb EO HI2 HN2) as PN.
+    destruct (buffer_set_ok e nb tr 0 (Some (bslots b)) add (wctx w2) m PN) as (nb' & c' & m' & rv & ES & LO).
+    { intros ks TK.
+      assert (EN : buf_els e nb = []) by apply fresh_buf_els.
+      rewrite EN.
+      apply (wf_src_good e b ks m [] (add / esz e ks) EO).
+      - exact (hi_wf _ _ _ HI _ _ HB).
+      - congruence.
+      - intros t Ht. apply (hi_live _ _ _ HI). eauto.
+      - intros t _ [].
+      - apply div_le_mono'; [apply esz_pos; assumption|]. unfold add. destruct (len <? bused b) eqn:Z; [apply Nat.ltb_lt in Z|]; lia. }
+    change (wctx (hput w1 id (Some (with_ref b r)) (wctx w1))) with (wctx w2).
+    fold w2. rewrite ES. cbn [bind].
+    set (w3 := hput w2 nid (Some nb') c').
+    assert (HI3 : hinv e w3 m') by (eapply hinv_local; eassumption).
+    assert (SS : bref nb' = 1 /\ btr nb' = tr).
+    { destruct LO as [(S1 & _ & _ & _ & S5) _ _ _ _ _ _]. simpl in *. split; assumption. }
+    destruct SS as (RN & TN).
+    assert (LTn2 : nid < length (wheap w2)) by lia.
+    assert (HN3 : hget w3 nid = Some nb') by (unfold w3; rewrite hget_hput_eq by assumption; reflexivity).
+    assert (REFS3 : forall j, refs w3 j = if j =? nid then Some 1 else if j =? id then Some r else refs w j).
+    { intros j. unfold w3. rewrite refs_hput by assumption. destruct (Nat.eqb_spec j nid) as [->|Nn].
+      - simpl. rewrite RN. reflexivity.
+      - unfold w2. rewrite refs_hput by assumption. destruct (Nat.eqb_spec j id); [reflexivity|]. apply O1. assumption. }
+    destruct rv as [n|err].
+    + (* copied *)
+      exists w3, (Some nid), m'. split; [reflexivity|]. split; [assumption|]. split; [simpl; assumption|].
+      right. split; [assumption|]. split; [rewrite REFS3, Nat.eqb_refl; reflexivity|]. split.
+      { rewrite REFS3. destruct (Nat.eqb_spec id nid); [lia|]. rewrite Nat.eqb_refl.
+        destruct (Nat.eqb_spec (bref b) 1); [lia|reflexivity]. }
+      split.
+      { intros j Nj Nn. rewrite REFS3. destruct (Nat.eqb_spec j nid); [contradiction|].
+        destruct (Nat.eqb_spec j id); [contradiction|reflexivity]. }
+      exists nb'. split; [assumption|]. split; [assumption|]. intros X. lia.
+    + (* refused: the new buffer is released again, the caller keeps its reference *)
+      destruct (unref_ok e w3 m' nid nb' EO HI3 HN3 ltac:(lia)) as (w4 & m4 & EU & HI4 & WH4 & WL4 & OTH4 & AT4).
+      rewrite EU. cbn [bind].
+      assert (HB4 : hget w4 id = Some (with_ref b r)).
+      { rewrite OTH4 by auto. unfold w3. rewrite hget_hput_ne by auto. assumption. }
+      unfold addref. rewrite HB4. cbn [bind].
+      assert (LTi4 : id < length (wheap w4)).
+      { rewrite WL4. unfold w3. rewrite hput_len by assumption. lia. }
+      exists (hput w4 id (Some (with_ref (with_ref b r) (S (bref (with_ref b r))))) (wctx w4)), None, m4.
+      split; [reflexivity|]. split; [apply hinv_ref; assumption|]. split; [simpl; rewrite WH4; simpl; assumption|].
+      intros j. rewrite refs_hput by assumption. destruct (Nat.eqb_spec j id) as [->|Ni].
+      * simpl. rewrite (refs_some _ _ _ HB). f_equal. unfold r. lia.
+      * unfold refs. destruct (Nat.eq_dec j nid) as [->|Nn].
+        -- rewrite AT4, RN. simpl. rewrite hget_beyond by lia. reflexivity.
+        -- rewrite OTH4 by assumption. fold (refs w3 j). rewrite REFS3.
+           destruct (Nat.eqb_spec j nid); [contradiction|]. destruct (Nat.eqb_spec j id); [contradiction|reflexivity].
+Qed.
+
+(* ---------------------------------------------------------------- re-pointing a handle *)
+
+Definition refn (w : world) (j : nat) : nat := match refs w j with Some r => r | None => 0 end.
+
+(* w' has the handles of w; afterwards handle h is set to v: the reference counts of w' must be
+   those of w, one less for the old target of h and one more for v *)
+Lemma rinv_retarget w w' h v :
+  rinv w -> h < length (whnd w) -> whnd w' = whnd w ->
+  (forall j, refn w' j + (if onat_dec (handle w h) (Some j) then 1 else 0)
+             = refn w j + (if onat_dec v (Some j) then 1 else 0)) ->
+  (forall j, refs w' j <> Some 0) ->
+  rinv (set_hnd w' h v).
+Proof.
+  intros R Hh WH E POS j. specialize (POS j). change (refs (set_hnd w' h v) j) with (refs w' j).
+  pose proof (cnt_set_hnd w' h v j ltac:(rewrite WH; assumption)) as C.
+  assert (HH : handle w' h = handle w h) by (unfold handle; rewrite WH; reflexivity).
+  assert (CC : cnt w' j = cnt w j) by (unfold cnt; rewrite WH; reflexivity).
+  rewrite HH, CC in C. specialize (E j). specialize (R j). unfold refn in E.
+  assert (P0 : forall r', refs w' j = Some r' -> r' <> 0) by (intros r' X Z; subst; contradiction).
+  destruct (refs w' j) as [r'|]; destruct (refs w j) as [r|];
+    destruct (onat_dec (handle w h) (Some j)); destruct (onat_dec v (Some j));
+    try specialize (P0 _ eq_refl); lia.
+Qed.
+
+Lemma rinv_pos w j : rinv w -> refs w j <> Some 0.
+Proof. intros R. specialize (R j). destruct (refs w j) as [r|]; [|discriminate]. intros [= ->]. lia. Qed.
+
+Lemma refn_some w j b : hget w j = Some b -> refn w j = bref b.
+Proof. intros H. unfold refn. rewrite (refs_some _ _ _ H). reflexivity. Qed.
+Lemma refn_none w j : hget w j = None -> refn w j = 0.
+Proof. intros H. unfold refn, refs. rewrite H. reflexivity. Qed.
+Lemma refn_refs w w' j : refs w' j = refs w j -> refn w' j = refn w j.
+Proof. intros H. unfold refn. rewrite H. reflexivity. Qed.
+
+Lemma rinv_refn_handle w h id b : rinv w -> handle w h = Some id -> hget w id = Some b -> 1 <= bref b.
+Proof. intros R H HB. destruct (rinv_handle _ _ _ R H) as (b' & HB' & RB). congruence. Qed.
+
+(* ---------------------------------------------------------------- OpDetach *)
+
+Lemma op_detach_total e nh w h len :
+  env_ok e -> winv e nh w -> h < nh ->
+  step_total e nh w
+    (on_buf w h (fun id b =>
+       do '(w', r) <- detach e w id len;
+       match r with
+       | Some nid => Ok (set_hnd w' h (Some nid), OOk)
+       | None => Ok (w', ORefused)
+       end)).
+Proof.
+  intros EO ((m & HI) & RI & LH) Hh. unfold on_buf.
+  destruct (handle w h) as [id|] eqn:HH.
+  2:{ exists w, OSkip. split; [reflexivity|]. split; [eauto|]. split; assumption. }
+  destruct (rinv_handle _ _ _ RI HH) as (b & HB & RB). rewrite HB.
+  destruct (detach_ok e w m id b len EO HI HB RB) as (w' & r & m' & E & HI' & WH & SPEC).
+  rewrite E. cbn [bind].
+  destruct r as [nid|].
+  - exists (set_hnd w' h (Some nid)), OOk. split; [reflexivity|].
+    split; [exists m'; apply hinv_set_hnd; assumption|]. split.
+    + apply (rinv_retarget w w' h (Some nid) RI); [lia|assumption| |].
+      2:{ intros j. destruct SPEC as [(-> & ->)|(NID & RN & RID & OTH & _)]; [apply rinv_pos; assumption|].
+          destruct (Nat.eq_dec j nid) as [->|Nn]; [rewrite RN; discriminate|].
+          destruct (Nat.eq_dec j id) as [->|Ni].
+          - rewrite RID. destruct (Nat.eqb_spec (bref b) 1); [discriminate|]. intros [= X]. lia.
+          - rewrite OTH by assumption. apply rinv_pos; assumption. }
+      intros j. rewrite HH.
+      destruct SPEC as [(-> & ->)|(NID & RN & RID & OTH & _)].
+      * destruct (onat_dec (Some id) (Some j)); lia.
+      * destruct (Nat.eq_dec j nid) as [->|Nn].
+        -- unfold refn at 1. rewrite RN. rewrite (refn_none w nid) by (apply hget_beyond; lia).
+           destruct (onat_dec (Some id) (Some nid)) as [X|X]; [inversion X; pose proof (hget_lt _ _ _ HB); lia|].
+           destruct (onat_dec (Some nid) (Some nid)); [lia|congruence].
+        -- destruct (Nat.eq_dec j id) as [->|Ni].
+           ++ unfold refn at 1. rewrite RID. rewrite (refn_some _ _ _ HB).
+              destruct (onat_dec (Some id) (Some id)); [|congruence].
+              destruct (onat_dec (Some nid) (Some id)) as [X|X]; [inversion X; congruence|].
+              destruct (Nat.eqb_spec (bref b) 1); lia.
+           ++ rewrite (refn_refs w w' j) by (apply OTH; assumption).
+              destruct (onat_dec (Some id) (Some j)) as [X|X]; [inversion X; congruence|].
+              destruct (onat_dec (Some nid) (Some j)) as [Y|Y]; [inversion Y; congruence|]. lia.
+    + rewrite set_hnd_len by (rewrite WH; lia). rewrite WH. assumption.
+  - exists w', ORefused. split; [reflexivity|]. split; [eauto|]. split.
+    + eapply rinv_same_refs; eassumption.
+    + rewrite WH. assumption.
+Qed.
+
+(* ---------------------------------------------------------------- buffer::copy between two handles *)
+
+Lemma local_finish e nh w m id b b' c' m' o :
+  hinv e w m -> rinv w -> length (whnd w) = nh -> hget w id = Some b ->
+  local_ok e b (wctx w) m b' c' m' ->
+  step_total e nh w (Ok (hput w id (Some b') c', o)).
+Proof.
+  intros HI RI LH HB L. exists (hput w id (Some b') c'), o. split; [reflexivity|].
+  pose proof (hget_lt _ _ _ HB) as LTid.
+  split; [exists m'; eapply hinv_local; eassumption|]. split; [|assumption].
+  eapply rinv_same_refs; [eassumption|reflexivity|].
+  intros j. rewrite refs_hput by assumption. destruct (Nat.eqb_spec j id) as [->|]; [|reflexivity].
+  rewrite (refs_some _ _ _ HB). simpl. f_equal. destruct L as [(S & _) _ _ _ _ _ _]. assumption.
+Qed.
+
+Lemma op_copy_total e nh w h g :
+  env_ok e -> winv e nh w ->
+  step_total e nh w
+    (on_buf w h (fun id b =>
+      on_buf w g (fun gid gb =>
+        if id =? gid then Ok (w, OOk) else
+        do '(b', c', ok) <- cxx_copy e b gb (wctx w); Ok (hput w id (Some b') c', bool_out ok)))).
+Proof.
+  intros EO WI. pose proof WI as ((m & HI) & RI & LH). unfold on_buf.
+  destruct (handle w h) as [id|] eqn:HH; [|exists w, OSkip; split; [reflexivity|assumption]].
+  destruct (rinv_handle _ _ _ RI HH) as (b & HB & RB). rewrite HB.
+  destruct (handle w g) as [gid|] eqn:HG; [|exists w, OSkip; split; [reflexivity|assumption]].
+  destruct (rinv_handle _ _ _ RI HG) as (gb & HGB & RGB). rewrite HGB.
+  destruct (Nat.eqb_spec id gid) as [->|NE]; [exists w, OOk; split; [reflexivity|assumption]|].
+  destruct (cxx_copy_ok e b gb (wctx w) m (hinv_pre e w m id b EO HI HB)) as (b' & c' & m' & ok & E & L).
+  - exact (hi_wf _ _ _ HI _ _ HGB).
+  - intros t Ht. apply (hi_live _ _ _ HI). eauto.
+  - intros t Ht. apply (hi_disj _ _ _ HI gid id gb b t); auto.
+  - rewrite E. cbn [bind]. eapply local_finish; eassumption.
+Qed.
+
+(* ---------------------------------------------------------------- buffer::move between two handles *)
+
+Lemma setnth_setnth {A} i (x y : A) l : i < length l -> setnth i y (setnth i x l) = setnth i y l.
+Proof.
+  revert i; induction l as [|z l IH]; intros i H; simpl in H; [lia|].
+  destruct i as [|i]; unfold setnth in *; simpl; [reflexivity|]. f_equal. apply IH. lia.
+Qed.
+
+
+Lemma cxx_trim_all_used e b c b1 c1 :
+  cxx_trim e b (bused b) c = Ok (b1, c1, true) -> bused b1 = 0 /\ bslots b1 = bslots b1.
+Proof.
+  unfold cxx_trim. rewrite Nat.ltb_irrefl, Nat.sub_diag.
+  destruct (btr b) as [k|].
+  - dif; [discriminate|].
+    destruct (fini_loop (S (bused b)) (esz e k) (bsize b) 0 0 (bused b) (bslots b) c) as [[sl1 c2]| |]; cbn [bind];
+      try discriminate.
+    intros [= <- _]. split; reflexivity.
+  - intros [= <- _]. split; reflexivity.
+Qed.
+
+Lemma buf_els_used0 e b : bused b = 0 -> buf_els e b = [].
+Proof.
+  intros Z. unfold buf_els. destruct (btr b) as [k|]; [|reflexivity]. rewrite Z.
+  destruct (esz e k); reflexivity.
+Qed.
+
+(* the elements of buffer gid are moved (as raw bytes) into the empty buffer id *)
+Lemma hinv_transfer e w m id gid b1 gb b' gb' :
+  hinv e w m -> id <> gid -> hget w id = Some b1 -> hget w gid = Some gb ->
+  buf_els e b1 = [] -> buf_wf e b' -> buf_els e b' = buf_els e gb -> buf_wf e gb' -> buf_els e gb' = [] ->
+  hinv e (hput (hput w id (Some b') (wctx w)) gid (Some gb') (wctx w)) m.
+Proof.
+  intros [WF MO LV ND DJ] NE HB HG E1 WB' EB' WG' EG'.
+  pose proof (hget_lt _ _ _ HB) as LTi. pose proof (hget_lt _ _ _ HG) as LTg.
+  set (w' := hput (hput w id (Some b') (wctx w)) gid (Some gb') (wctx w)).
+  assert (LTg' : gid < length (wheap (hput w id (Some b') (wctx w)))) by (rewrite hput_len; assumption).
+  assert (GI : hget w' id = Some b').
+  { unfold w'. rewrite hget_hput_ne by auto. rewrite hget_hput_eq by assumption. reflexivity. }
+  assert (GG : hget w' gid = Some gb').
+  { unfold w'. rewrite hget_hput_eq by assumption. reflexivity. }
+  assert (GO : forall j, j <> id -> j <> gid -> hget w' j = hget w j).
+  { intros j N1 N2. unfold w'. rewrite hget_hput_ne by assumption. rewrite hget_hput_ne by assumption. reflexivity. }
+  assert (G : forall j bj, hget w' j = Some bj ->
+            (j = id /\ bj = b') \/ (j = gid /\ bj = gb') \/ (j <> id /\ j <> gid /\ hget w j = Some bj)).
+  { intros j bj Hj. destruct (Nat.eq_dec j id) as [->|Ni]; [rewrite GI in Hj; injection Hj as <-; auto|].
+    destruct (Nat.eq_dec j gid) as [->|Ng]; [rewrite GG in Hj; injection Hj as <-; auto|].
+    rewrite GO in Hj by assumption. auto. }
+  split.
+  - intros j bj Hj. destruct (G _ _ Hj) as [(_ & ->)|[(_ & ->)|(_ & _ & X)]]; eauto.
+  - exact MO.
+  - intros t. rewrite LV. split.
+    + intros (j & bj & Hj & Tj).
+      destruct (Nat.eq_dec j id) as [->|Ni].
+      { rewrite HB in Hj. injection Hj as <-. rewrite E1 in Tj. contradiction. }
+      destruct (Nat.eq_dec j gid) as [->|Ng].
+      { rewrite HG in Hj. injection Hj as <-. exists id, b'. rewrite EB'. auto. }
+      exists j, bj. rewrite GO by assumption. auto.
+    + intros (j & bj & Hj & Tj). destruct (G _ _ Hj) as [(-> & ->)|[(-> & ->)|(_ & _ & X)]].
+      * rewrite EB' in Tj. eauto.
+      * rewrite EG' in Tj. contradiction.
+      * eauto.
+  - intros j bj Hj. destruct (G _ _ Hj) as [(_ & ->)|[(_ & ->)|(_ & _ & X)]].
+    + rewrite EB'. eauto.
+    + rewrite EG'. constructor.
+    + eauto.
+  - intros i j bi bj t N Hi Hj Ti Tj.
+    destruct (G _ _ Hi) as [(-> & ->)|[(-> & ->)|(Ni & Ni' & X)]];
+      destruct (G _ _ Hj) as [(-> & ->)|[(-> & ->)|(Nj & Nj' & Y)]]; try congruence;
+      try (rewrite EG' in *; contradiction).
+    + rewrite EB' in Ti. exact (DJ gid j gb bj t ltac:(auto) HG Y Ti Tj).
+    + rewrite EB' in Tj. exact (DJ i gid bi gb t ltac:(auto) X HG Ti Tj).
+    + exact (DJ i j bi bj t N X Y Ti Tj).
+Qed.
+
+Lemma okind_eqb_eq a b : okind_eqb a b = true -> a = b.
+Proof. destruct a as [[]|], b as [[]|]; simpl; congruence. Qed.
+
+Lemma op_move_total e nh w h g :
+  env_ok e -> winv e nh w ->
+  step_total e nh w
+    (on_buf w h (fun id b =>
+      on_buf w g (fun gid gb =>
+        if id =? gid then Ok (w, OOk) else
+        do '(b', gb', c', ok) <- cxx_move e b gb (wctx w);
+        Ok (hput (hput w id (Some b') c') gid (Some gb') c', bool_out ok)))).
+Proof.
+  intros EO WI. pose proof WI as ((m & HI) & RI & LH). unfold on_buf.
+  destruct (handle w h) as [id|] eqn:HH; [|exists w, OSkip; split; [reflexivity|assumption]].
+  destruct (rinv_handle _ _ _ RI HH) as (b & HB & RB). rewrite HB.
+  destruct (handle w g) as [gid|] eqn:HG; [|exists w, OSkip; split; [reflexivity|assumption]].
+  destruct (rinv_handle _ _ _ RI HG) as (gb & HGB & RGB). rewrite HGB.
+  destruct (Nat.eqb_spec id gid) as [->|NE]; [exists w, OOk; split; [reflexivity|assumption]|].
+  pose proof (hget_lt _ _ _ HB) as LTi. pose proof (hget_lt _ _ _ HGB) as LTg.
+  (* a world in which gid is rewritten with itself *)
+  assert (SAME : forall b1 c1 m1 o, local_ok e b (wctx w) m b1 c1 m1 ->
+                 step_total e nh w (Ok (hput (hput w id (Some b1) c1) gid (Some gb) c1, o))).
+  { intros b1 c1 m1 o L.
+    destruct (local_finish e nh w m id b b1 c1 m1 o HI RI LH HB L) as (w1 & o1 & E1 & (m1' & HI1) & RI1 & LH1).
+    injection E1 as <- <-.
+    assert (HG1 : hget (hput w id (Some b1) c1) gid = Some gb) by (rewrite hget_hput_ne by auto; assumption).
+    pose proof (hinv_ref e _ m1' gid gb (bref gb) HI1 HG1) as HI2.
+    replace (with_ref gb (bref gb)) with gb in HI2 by (destruct gb; reflexivity).
+    exists (hput (hput w id (Some b1) c1) gid (Some gb) c1), o. split; [reflexivity|].
+    split; [eexists; exact HI2|]. split; [|assumption].
+    eapply rinv_same_refs; [exact RI1|reflexivity|].
+    intros j. rewrite refs_hput by (rewrite hput_len; assumption).
+    destruct (Nat.eqb_spec j gid) as [->|]; [|reflexivity]. rewrite (refs_some _ _ _ HG1). reflexivity. }
+  pose proof (hinv_pre e w m id b EO HI HB) as P.
+  unfold cxx_move.
+  dif. { cbn [bind]. apply (SAME b (wctx w) m). apply pre_refl. assumption. }
+  dif. { cbn [bind]. apply (SAME b (wctx w) m). apply pre_refl. assumption. }
+  destruct (cxx_trim_ok e b (bused b) (wctx w) m P) as (b1 & c1 & m1 & ok & ET & L1).
+  rewrite ET. cbn [bind].
+  destruct ok; cbn [negb]; [|cbn [bind]; apply (SAME b1 c1 m1); assumption].
+  destruct (cxx_trim_all_used e b (wctx w) b1 c1 ET) as (U0 & _).
+  apply negb_false_iff, okind_eqb_eq in E. apply Nat.ltb_ge in E0.
+  destruct (local_finish e nh w m id b b1 c1 m1 OOk HI RI LH HB L1) as (w1 & o1 & E1 & (m1' & HI1) & RI1 & LH1).
+  injection E1 as <- <-.
+  set (w1 := hput w id (Some b1) c1) in *.
+  assert (HB1 : hget w1 id = Some b1) by (unfold w1; rewrite hget_hput_eq by assumption; reflexivity).
+  assert (HG1 : hget w1 gid = Some gb) by (unfold w1; rewrite hget_hput_ne by auto; assumption).
+  assert (C1 : wctx w1 = c1) by reflexivity.
+  destruct L1 as [(S1 & S2 & S3 & S4 & S5) W1 _ _ _ _ _].
+  assert (FIN : forall b' gb', bref b' = bref b1 -> bref gb' = bref gb ->
+                buf_wf e b' -> buf_els e b' = buf_els e gb -> buf_wf e gb' -> buf_els e gb' = [] ->
+                step_total e nh w (Ok (hput (hput w id (Some b') c1) gid (Some gb') c1, OOk))).
+  { intros b' gb' R1 R2 WB' EB' WG' EG'.
+    pose proof (hinv_transfer e w1 m1' id gid b1 gb b' gb' HI1 NE HB1 HG1 (buf_els_used0 e b1 U0) WB' EB' WG' EG') as HT.
+    rewrite C1 in HT.
+    assert (EQW : hput (hput w1 id (Some b') c1) gid (Some gb') c1 = hput (hput w id (Some b') c1) gid (Some gb') c1).
+    { assert (IN : hput w1 id (Some b') c1 = hput w id (Some b') c1).
+      { unfold w1, hput. simpl. f_equal. apply setnth_setnth. assumption. }
+      rewrite IN. reflexivity. }
+    rewrite <- EQW.
+    eexists _, OOk. split; [reflexivity|]. split; [eexists; exact HT|]. split.
+    - eapply rinv_same_refs; [exact RI1|reflexivity|].
+      intros j. rewrite refs_hput by (rewrite hput_len; unfold w1; rewrite hput_len; assumption).
+      destruct (Nat.eqb_spec j gid) as [->|Ng].
+      + rewrite (refs_some _ _ _ HG1). simpl. congruence.
+      + rewrite refs_hput by (unfold w1; rewrite hput_len; assumption).
+        destruct (Nat.eqb_spec j id) as [->|Ni]; [|reflexivity].
+        rewrite (refs_some _ _ _ HB1). simpl. congruence.
+    - simpl. assumption. }
+  destruct (btr b) as [k|] eqn:T.
+  - (* typed: same kind on both sides *)
+    pose proof (esz_pos e k EO) as Hs. set (sz := esz e k) in *.
+    pose proof (hi_wf _ _ _ HI _ _ HGB) as WG. unfold buf_wf in WG. rewrite <- E in WG. fold sz in WG.
+    destruct (typed_wf_decomp sz gb Hs WG) as (EG & JG & SLG & USG & LENG).
+    assert (BEG : buf_els e gb = EG) by (eapply (buf_els_typed e gb k); eauto).
+    replace (bused gb mod sz =? 0) with true by (symmetry; apply Nat.eqb_eq; rewrite USG; apply mul_mod; assumption).
+    replace (bused gb / sz) with (length EG) by (rewrite USG, mul_div by assumption; reflexivity).
+    rewrite SLG, firstn_exact by (rewrite map_length; reflexivity).
+    unfold buf_wf in W1. rewrite S5 in W1. fold sz in W1.
+    pose proof (tw_len _ _ W1) as LEN1.
+    apply FIN; try reflexivity.
+    + unfold buf_wf. simpl. rewrite S5. fold sz. rewrite USG.
+      pose proof (typed_wf_intro sz (bref b1) (bimm b1) (bncp b1) (bsize b1) (btr b1) EG
+                    (skipn (length (map STok EG)) (bslots b1)) Hs) as W. apply W.
+      * rewrite S4. rewrite USG in E0. assumption.
+      * rewrite skipn_length, map_length, LEN1.
+        assert (length EG <= bsize b1 / sz) by (apply mul_le_div; [assumption|rewrite S4, <- USG; assumption]). lia.
+    + rewrite BEG. eapply (buf_els_typed e _ k EG); simpl; eauto.
+    + unfold buf_wf. simpl. rewrite <- E. fold sz. destruct WG as [A1 A2 A3 A4]. split; simpl; auto.
+      * apply Nat.mod_0_l. lia.
+      * lia.
+      * rewrite Nat.div_0_l by lia. reflexivity.
+    + apply buf_els_used0. reflexivity.
+  - apply FIN; try reflexivity.
+    + unfold buf_wf. simpl. rewrite S5. exact I.
+    + unfold buf_els. simpl. rewrite S5, <- E. reflexivity.
+    + unfold buf_wf. simpl. rewrite <- E. exact I.
+    + apply buf_els_used0. reflexivity.
+Qed.
+
+(* a buffer is replaced by a well formed one with the same elements *)
+Lemma hinv_same_els e w m id b b' :
+  hinv e w m -> hget w id = Some b -> buf_wf e b' -> buf_els e b' = buf_els e b ->
+  hinv e (hput w id (Some b') (wctx w)) m.
+Proof.
+  intros [WF MO LV ND DJ] H WB' EB'. pose proof (hget_lt _ _ _ H) as LT.
+  assert (G : forall j bj, hget (hput w id (Some b') (wctx w)) j = Some bj ->
+                           exists bj', hget w j = Some bj' /\ buf_els e bj = buf_els e bj' /\ buf_wf e bj).
+  { intros j bj. rewrite hget_hput by assumption. destruct (Nat.eqb_spec j id) as [->|].
+    - intros [= <-]. exists b. auto.
+    - intros Hj. exists bj. eauto. }
+  split.
+  - intros j bj Hj. destruct (G _ _ Hj) as (bj' & H1 & H2 & H3). assumption.
+  - exact MO.
+  - intros t. rewrite LV. split.
+    + intros (j & bj & Hj & Tj). destruct (Nat.eq_dec j id) as [->|N].
+      * exists id, b'. rewrite hget_hput_eq by assumption. rewrite H in Hj. injection Hj as <-.
+        rewrite EB'. auto.
+      * exists j, bj. rewrite hget_hput_ne by assumption. auto.
+    + intros (j & bj & Hj & Tj). destruct (G _ _ Hj) as (bj' & H1 & H2 & _). exists j, bj'. rewrite <- H2. auto.
+  - intros j bj Hj. destruct (G _ _ Hj) as (bj' & H1 & H2 & _). rewrite H2. eauto.
+  - intros i j bi bj t N Hi Hj. destruct (G _ _ Hi) as (bi' & I1 & I2 & _). destruct (G _ _ Hj) as (bj' & J1 & J2 & _).
+    rewrite I2, J2. exact (DJ i j bi' bj' t N I1 J1).
+Qed.
+
+(* ---------------------------------------------------------------- mpt_array_reserve *)
+
+Lemma reserve_clear_ok e b tr c m :
+  pre e b c m ->
+  exists b1 c1 m1, reserve_clear e b tr c = Ok (b1, c1) /\ local_ok e b c m b1 c1 m1
+                   /\ (okind_eqb (btr b) tr = false -> bused b1 = 0).
+Proof.
+  intros P. pose proof (pre_refl _ _ _ _ P) as R. pose proof P as [EO W M ND IN].
+  unfold reserve_clear. destruct (okind_eqb (btr b) tr) eqn:K.
+  { exists b, c, m. split; [reflexivity|]. split; [assumption|discriminate]. }
+  destruct (btr b) as [k|] eqn:T.
+  2:{ exists (with_used b 0), c, m. split; [reflexivity|]. split; [|reflexivity].
+      apply raw_local_ok; auto. repeat split. }
+  destruct (typed_pre e b c m k P T) as (Hs & EL & J & SL & US & LEN & BE & ULE & NDE & INE).
+  set (sz := esz e k) in *.
+  assert (UA : bused b - bused b mod sz = length EL * sz) by (rewrite US, mul_mod by assumption; lia).
+  rewrite UA.
+  destruct (fini_range sz (bsize b) EL (S (length EL * sz)) 0 [] J c m) as (c1 & m1 & FL & S1 & SC);
+    try assumption; try reflexivity.
+  { nia. }
+  cbn [Nat.mul Nat.add app] in FL. rewrite SL, FL. cbn [bind].
+  do 3 eexists. split; [reflexivity|]. split; [|reflexivity].
+  change (map SDead EL ++ J) with (map STok [] ++ (map SDead EL ++ J)).
+  eapply (local_ok_intro e b c m c1 m1 k EL EL [] []); eauto.
+  - intros x Hx. assumption.
+  - constructor.
+  - intros t. simpl. tauto.
+  - lia.
+  - fold sz. simpl. rewrite app_length, map_length. lia.
+Qed.
+
+Lemma retag_ok e nb tr :
+  env_ok e -> buf_wf e nb -> (okind_eqb (btr nb) tr = false -> bused nb = 0) ->
+  buf_wf e (retag e nb tr) /\ buf_els e (retag e nb tr) = buf_els e nb /\ bref (retag e nb tr) = bref nb.
+Proof.
+  intros EO W Z. unfold retag. destruct (okind_eqb (btr nb) tr) eqn:K; [auto|].
+  specialize (Z eq_refl). split; [|split; [|reflexivity]].
+  - rewrite Z. apply fresh_buf_wf. assumption.
+  - rewrite Z, fresh_buf_els. symmetry. apply buf_els_used0. assumption.
+Qed.
+
+Lemma reserve_reuse_total e nh w h len tr id b :
+  env_ok e -> winv e nh w -> h < nh -> handle w h = Some id -> hget w id = Some b -> bref b = 1 ->
+  step_total e nh w (reserve_reuse e w h len tr id b).
+Proof.
+  intros EO ((m & HI) & RI & LH) Hh HH HB R1. unfold reserve_reuse.
+  pose proof (hget_lt _ _ _ HB) as LTi.
+  destruct (reserve_clear_ok e b tr (wctx w) m (hinv_pre e w m id b EO HI HB)) as (b1 & c1 & m1 & EC & L1 & Z1).
+  rewrite EC. cbn [bind].
+  set (w1 := hput w id (Some b1) c1).
+  assert (HI1 : hinv e w1 m1) by (eapply hinv_local; eassumption).
+  assert (HB1 : hget w1 id = Some b1) by (unfold w1; rewrite hget_hput_eq by assumption; reflexivity).
+  destruct L1 as [(S1 & S2 & S3 & S4 & S5) W1 _ _ _ _ _].
+  assert (REF1 : forall j, refs w1 j = refs w j).
+  { intros j. unfold w1. rewrite refs_hput by assumption. destruct (Nat.eqb_spec j id) as [->|]; [|reflexivity].
+    rewrite (refs_some _ _ _ HB). simpl. congruence. }
+  assert (RI1 : rinv w1) by (eapply rinv_same_refs; [exact RI|reflexivity|exact REF1]).
+  destruct (detach_ok e w1 m1 id b1 len EO HI1 HB1 ltac:(lia)) as (w2 & r & m2 & ED & HI2 & WH2 & SPEC).
+  rewrite ED. cbn [bind].
+  destruct r as [nid|].
+  2:{ exists w2, ORefused. split; [reflexivity|]. split; [eauto|]. split.
+      - eapply rinv_same_refs; [exact RI1|exact WH2|exact SPEC].
+      - rewrite WH2. simpl. assumption. }
+  assert (NB : exists nb, hget w2 nid = Some nb /\ btr nb = btr b1 /\ bused nb <= bused b1 /\ bref nb = 1
+               /\ (forall j, refn w2 j + (if onat_dec (Some id) (Some j) then 1 else 0)
+                             = refn w1 j + (if onat_dec (Some nid) (Some j) then 1 else 0))
+               /\ (forall j, refs w2 j <> Some 0)).
+  { destruct SPEC as [(-> & ->)|(NID & RN & RID & OTH & nb & HN & TN & UN)].
+    - exists b1. split; [assumption|]. split; [reflexivity|]. split; [lia|]. split; [lia|]. split.
+      + intros j. destruct (onat_dec (Some id) (Some j)); lia.
+      + intros j. apply rinv_pos. assumption.
+    - exists nb. split; [assumption|]. split; [assumption|]. split; [apply UN; lia|]. split.
+      + unfold refs in RN. rewrite HN in RN. simpl in RN. congruence.
+      + split.
+        2:{ intros j. destruct (Nat.eq_dec j nid) as [->|Nn]; [rewrite RN; discriminate|].
+            destruct (Nat.eq_dec j id) as [->|Ni].
+            - rewrite RID. replace (bref b1 =? 1) with true by (symmetry; apply Nat.eqb_eq; lia). discriminate.
+            - rewrite OTH by assumption. apply rinv_pos. assumption. }
+        intros j. destruct (Nat.eq_dec j nid) as [->|Nn].
+        * unfold refn at 1. rewrite RN. rewrite (refn_none w1 nid) by (apply hget_beyond; lia).
+          destruct (onat_dec (Some id) (Some nid)) as [X|X]; [inversion X; unfold w1 in NID; rewrite hput_len in NID by assumption; lia|].
+          destruct (onat_dec (Some nid) (Some nid)); [lia|congruence].
+        * destruct (Nat.eq_dec j id) as [->|Ni].
+          -- unfold refn at 1. rewrite RID. rewrite (refn_some _ _ _ HB1).
+             destruct (onat_dec (Some id) (Some id)); [|congruence].
+             destruct (onat_dec (Some nid) (Some id)) as [X|X]; [inversion X; congruence|].
+             replace (bref b1 =? 1) with true by (symmetry; apply Nat.eqb_eq; lia). lia.
+          -- rewrite (refn_refs w1 w2 j) by (apply OTH; assumption).
+             destruct (onat_dec (Some id) (Some j)) as [X|X]; [inversion X; congruence|].
+             destruct (onat_dec (Some nid) (Some j)) as [Y|Y]; [inversion Y; congruence|]. lia. }
+  destruct NB as (nb & HN & TN & UN & RN & EQS & POS2). rewrite HN.
+  pose proof (hget_lt _ _ _ HN) as LTn.
+  assert (ZR : okind_eqb (btr nb) tr = false -> bused nb = 0).
+  { intros K. rewrite TN, S5 in K. specialize (Z1 K). lia. }
+  destruct (retag_ok e nb tr EO (hi_wf _ _ _ HI2 _ _ HN) ZR) as (WR & ER & RR).
+  exists (set_hnd (hput w2 nid (Some (retag e nb tr)) (wctx w2)) h (Some nid)), OOk. split; [reflexivity|].
+  set (w3 := hput w2 nid (Some (retag e nb tr)) (wctx w2)).
+  assert (HI3 : hinv e w3 m2) by (apply hinv_same_els with (b := nb); assumption).
+  assert (REF3 : forall j, refs w3 j = refs w2 j).
+  { intros j. unfold w3. rewrite refs_hput by assumption. destruct (Nat.eqb_spec j nid) as [->|]; [|reflexivity].
+    rewrite (refs_some _ _ _ HN). simpl. congruence. }
+  split; [exists m2; apply hinv_set_hnd; assumption|]. split.
+  - apply (rinv_retarget w1 w3 h (Some nid) RI1); [simpl; lia|exact WH2| |].
+    + intros j. rewrite (refn_refs w2 w3 j) by apply REF3.
+      change (handle w1 h) with (handle w h). rewrite HH. apply EQS.
+    + intros j. rewrite REF3. apply POS2.
+  - rewrite set_hnd_len by (unfold w3; simpl; rewrite WH2; simpl; lia).
+    unfold w3. simpl. rewrite WH2. simpl. assumption.
+Qed.
